@@ -232,6 +232,26 @@ pub fn run(tier: Tier) -> i32 {
         tally(eval(s));
     }
     ctx.count("d_structure_variations", d.len() as u64);
+    // (e) deterministic pseudo-random strings over the name alphabet plus separators and non-ASCII (a fixed
+    // sequence, not sampling at run time): the "anything else" part of the quantifier
+    let letters: Vec<char> = "NoisepkfalbcXKI1_+0259684SHABLEGCMPoly\u{e9}\u{2603} -".chars().collect();
+    let rnd: Vec<String> = (0..200_000u64)
+        .map(|i| {
+            let mut x = i.wrapping_mul(0x9e37_79b9_7f4a_7c15) ^ 0x1234_5678;
+            let len = 1 + (x % 48) as usize;
+            let mut s = String::new();
+            if i % 3 == 0 {
+                s.push_str("Noise_");
+            }
+            for _ in 0..len {
+                x = x.wrapping_mul(6364136223846793005).wrapping_add(1442695040888963407);
+                s.push(letters[((x >> 33) as usize) % letters.len()]);
+            }
+            s
+        })
+        .collect();
+    rnd.par_iter().for_each(|s| tally(eval(s)));
+    ctx.count("e_pseudo_random_strings", rnd.len() as u64);
     let ev = ctx.evaluations.load(std::sync::atomic::Ordering::Relaxed);
     ctx.states.store(ev, std::sync::atomic::Ordering::Relaxed);
     ctx.transitions.store(ev, std::sync::atomic::Ordering::Relaxed);
